@@ -25,7 +25,7 @@ def budget(tier):
 
 @st.composite
 def strategy_(draw, tier):
-    a, b, info = draw(gen.loop_case(tier))
+    a, b, info = draw(gen.loop_case(tier, avoid_shadow=known.active("loop-shadow-leaks")))
     names = list(lang.input_decls(a))
     vals = draw(gen.valuations(names, 3 if tier == "quick" else 6))
     for v in vals:
@@ -74,7 +74,7 @@ def run_case(case):
         return r
     info = case.get("info", {})
     classes = set()
-    for k in ("nested", "list", "var_bounds", "empty", "func_loop"):
+    for k in ("nested", "list", "var_bounds", "empty", "func_loop", "shadow"):
         if info.get(k):
             classes.add(k)
     n_iter = sum(1 for s in b.stmts if isinstance(s, lang.Decl) and s.kind == "Entity")
